@@ -203,8 +203,6 @@ theorem openDir_cut {uid : Bytes} {dir : List (FileSpec × Nat)} (h : CutOK uid 
       (fun a => (List.map (fun fk => (cutBytes fk, uid)) dir).any fun b => a.2 != b.2) = false := by
     simp only [List.any_eq_false, List.mem_map, Bool.not_eq_true]
     rintro a ⟨fk, _, rfl⟩
-    simp only [List.any_eq_false, List.mem_map, Bool.not_eq_true]
-    rintro b ⟨fk', _, rfl⟩
     simp
   simp only [huid, Bool.false_eq_true, if_false, List.map_map]
   have e : (List.map ((fun x => x.1) ∘ fun fk => (cutBytes fk, uid)) dir) = dir.map cutBytes := by
@@ -356,7 +354,7 @@ theorem torn_task {uid : Bytes} {dir : List (FileSpec × Nat)} (h : CutOK uid di
   rw [← hv] at hloc
   have hpath : log.paths.getD (viewOf d₁).length [] = (fileBytes f).take k := by
     rw [hlog]
-    simp [viewOf, cutBytes, List.getD_eq_getElem?_getD, List.getElem?_append_right]
+    simp [viewOf, cutBytes, List.getD_eq_getElem?_getD]
   -- reading one channel
   have hread : ∀ (e : ChunkHeader → Bool),
       readChunks ((fileBytes f).take k)
